@@ -5,6 +5,34 @@ use crate::c12::*;
 
 /// Test generated for harness `c12::c12_rank_f64_n0n1` 
 ///
+/// Check for `assertion`: ""null element gets a null rank""
+///
+/// # Warning
+///
+/// Concrete playback tests combined with stubs or contracts is highly
+/// experimental, and subject to change.
+///
+/// The original harness has stubs which are not applied to this test.
+/// This may cause a mismatch of non-deterministic values if the stub
+/// creates any non-deterministic value.
+/// The execution path may also differ, which can be used to refine the stub
+/// logic.
+
+#[test]
+fn kani_concrete_playback_c12_rank_f64_n0n1_5903988549484077343() {
+    let concrete_vals: Vec<Vec<u8>> = vec![
+        // 0
+        vec![0],
+        // 1
+        vec![1],
+        // 0
+        vec![0],
+    ];
+    kani::concrete_playback_run(concrete_vals, c12_rank_f64_n0n1);
+}
+
+/// Test generated for harness `c12::c12_rank_f64_n0n1` 
+///
 /// Check for `cover`: "fractional ranks"
 ///
 /// # Warning
@@ -29,34 +57,6 @@ fn kani_concrete_playback_c12_rank_f64_n0n1_3657277223452723248() {
         vec![1],
         // 1
         vec![1, 0, 0, 0],
-    ];
-    kani::concrete_playback_run(concrete_vals, c12_rank_f64_n0n1);
-}
-
-/// Test generated for harness `c12::c12_rank_f64_n0n1` 
-///
-/// Check for `assertion`: ""null element gets a null rank""
-///
-/// # Warning
-///
-/// Concrete playback tests combined with stubs or contracts is highly
-/// experimental, and subject to change.
-///
-/// The original harness has stubs which are not applied to this test.
-/// This may cause a mismatch of non-deterministic values if the stub
-/// creates any non-deterministic value.
-/// The execution path may also differ, which can be used to refine the stub
-/// logic.
-
-#[test]
-fn kani_concrete_playback_c12_rank_f64_n0n1_5903988549484077343() {
-    let concrete_vals: Vec<Vec<u8>> = vec![
-        // 0
-        vec![0],
-        // 1
-        vec![1],
-        // 0
-        vec![0],
     ];
     kani::concrete_playback_run(concrete_vals, c12_rank_f64_n0n1);
 }
